@@ -52,6 +52,19 @@ CHECKS = {
               "{dr,rd,rr} x auto/cross, all autocorrelation combinations, NaN entries."),
         ref="5.C04", technique="Lean 4 theorems over translator-generated kernels + differential correspondence",
         note="sqrt/division correctly rounded (IEEE); np.nansum skips NaN; glue pinned by AST fingerprint"),
+    "C05": dict(
+        text=("Theorems: a fold of assignments into cells named by the ids the results carry gives the same final store "
+              "for EVERY permutation of the arrivals, provided repeated writes agree (fold_perm_invariant via List.Perm); "
+              "distinct keys are consistent; corollaries for the pair-count array, the patch dictionary of a loaded "
+              "catalog and the histogram rows (hist_schedule_free: rows keyed by patch id - false for the arrival-indexed "
+              "rows before the repair of F11, witness theorem). Bit-identity follows because no floating-point "
+              "accumulation crosses task boundaries. Tie: the accumulation style of count_pairs / set_patch_pair / "
+              "load_patches / HistData.from_catalog is read off the AST (generated flags + pins); a deterministic "
+              "in-process Pool imposes all permutations (<= 4 tasks) and sampled orders on every parallel entry point, "
+              "real pools with 2/3/8 workers are run as well; all results compared bitwise with the sequential run. "
+              "PARTIAL: the OS scheduler itself is replaced by the controlled permutation."),
+        ref="5.C05", technique="Lean 4 permutation-invariance proof of the accumulation folds + controlled-schedule correspondence",
+        note="Pool.imap_unordered delivers each result exactly once; results transported by pickling"),
     "C07": dict(
         text=("Theorems about the tree-cache state machine of a patch (marker file, pickled trees, build with the "
               "GENERATED reuse rule, re-open, measure): cached trees are reused only for an identical binning (same "
